@@ -16,6 +16,14 @@ def main():
     args = ap.parse_args()
     seed = int(os.environ.get("VERIF_SEED", "0") or 0)
     tier = args.tier if args.tier in ("quick", "thorough") else "quick"
+    if args.replay:
+        # a replay file records the seed and tier of the run that produced it; every random
+        # choice derives from the seed, so re-running with them reproduces the reported case
+        import json
+        rp = json.load(open(args.replay))
+        seed, tier = int(rp.get("seed", seed)), rp.get("tier", tier)
+        print("replaying %s: seed=%d tier=%s; reported: %s" % (
+            args.replay, seed, tier, json.dumps(rp.get("violation"), default=str)[:1500]))
     try:
         mod = importlib.import_module("props." + args.prop.lower())
         code = mod.run(tier, seed, replay=args.replay)
